@@ -42,7 +42,7 @@ fn aux_len() -> BoxedStrategy<u16> {
 fn strat(_t: Tier) -> BoxedStrategy<Case> {
   (
     prop_oneof![3 => bytes(120), 1 => bytes(400)],
-    bytes(16),
+    epoch(),
     prop_oneof![1 => Just(2u32), 6 => 3u32..9],
     (aux_len(), any::<u64>()).prop_map(|(l, s)| Hx(expand(s, l as usize))),
     vec(
